@@ -109,6 +109,11 @@ func c10Corpus(thorough bool) []c10Req {
 			out = append(out, c10Req{Name: fmt.Sprintf("optiontwin/%s-%sRef/%c", bn, strat[6:9], 'A'+bi), Body: J(withBiases(root, []M{b}))})
 		}
 	}
+	// fatigue functions that share all parameters but one (a result remembered under part of its parameters shows as cross-talk)
+	for i, fp := range []M{{"alpha": 0.5, "multiplier": 1.0, "queryNumber": 2}, {"alpha": 0.5, "multiplier": 0.1, "queryNumber": 2}, {"alpha": 0.5, "multiplier": 1.0, "queryNumber": 3}} {
+		b := bias("fatigue", M{"function": "expFromZero", "params": fp, "randomSeed": 2})
+		out = append(out, c10Req{Name: fmt.Sprintf("optiontwin/fatigue-expFromZero/%c", 'A'+i), Body: J(withBiases(rootRequest("weightedSum", true, false), []M{b}))})
+	}
 	// ELECTRE III with the distillation function left to its default / declared (a valid one, a rejected one): what one
 	// request declares must not reach the one that declares nothing
 	{
